@@ -48,6 +48,7 @@ pub const SESSIONS: &[(&str, &str)] = &[
     ("any_params", "tagged := (tag: any, n: int) -> int { return n + 1 }\ntagged(1, 2)\ntri := (a: int, b: any, c: string) -> string { return c }\ntri(1, 2.5, \"x\")\nanyfirst := (a: any, b: [int], c: (int, string)) -> int { return std.len(b) + c.0 }\nanyfirst((), [1], (1, \"s\"))\nlast := (n: int, rest: any) -> int { return n }\nlast(1, \"x\")\nfour := (a: string, b: any, c: any, d: bool) -> bool { return d }\nfour(\"s\", 1, 2, true)"),
     ("match_value_arms", "id := (x: int) -> int { return x }\nv := id(5)\nr := match v { 5 => \"five\", n: int => \"int\", }\nr\nw := id(6)\nr2 := match w { 5, 7 => \"a\", 6 => \"six\", => \"other\", }\nr2\ns := \"k\"\nr3 := match s { \"j\", \"k\" => 1, t: string => 2, }\nr3\nu := [v, s]\nr4 := match u { [5, \"k\"] => 1, a: [int|string] => 2, }\n(r, r2, r3, r4)"),
     ("wide_cells", "wide := mut int|float 5\nnarrow := mut 5\nanyc := mut any 1\nread_wide := (c: mut (int|float)) -> int|float { return *c }\nread_wide(wide)\nread_narrow := (c: mut int) -> int { return *c + 1 }\nread_narrow(narrow)\nread_any := (c: mut any) -> any { return *c }\nread_any(anyc)\nput := (c: mut (int|float), v: float) -> float { return c = v }\nput(wide, 2.5)\n(*wide, *narrow, *anyc)"),
+    ("nan_self_compare", "z := mut 0.0\nx := *z / *z\nx == x\nx != x\ny := [x, 1.0]\ny == y\nt := (x, \"s\")\nt != t\nk := 5\n(k == k, k != k, x == x, [x] == [x])"),
     ("own_name_param", "f := (f: int, g: int) -> int { return f + g }\nf(1, 2)\ng := (x: int) -> int { g := x + 1; return g }\ng(1)\ng(2)"),
 ];
 
@@ -63,6 +64,9 @@ pub const AGAIN_PROGS: &[&str] = &[
     "it := [4, 5, 6]~ @ (v: int) -> int { return v + 1 }; (it(), it $])",
     "p := [1, 2, 3, 4]~ \\ (v: int) -> bool { return v % 2 == 0 }; p",
     "c := mut 1; g := () -> mut int { return c }; g() += 4; (*c, *g())",
+    // a run-time error raised deep inside script functions: the next execution is not affected
+    "f := (n: int) -> int { if n < 1 { return 1 / (n - n) } return f(n - 1) }; f(100)",
+    "g := (n: int) -> int { if n < 1 { return [1][n + 5] } return g(n - 1) + 1 }; h := (k: int) -> int { return g(k) }; h(90)",
     // defaults of exhausted type filters are made per execution (cells!)
     "it := [1, 2.5]~ ? mut int; (con, d) := it(); d += 1; (con, *d)",
     "it := [1]~ ? (mut int, int); (c1, d1) := it(); d1.0 += 1; *d1.0",
@@ -728,7 +732,7 @@ pub fn run_scenario(sc: &Scenario) -> RunReport {
                             return rep;
                         }
                         (Ok(l), Ok(h)) => {
-                            if show(&Ok(l.clone_result())) != show(&Ok(h.clone_result())) {
+                            if show(&lang) != show(&host) {
                                 rep.violation = Some((
                                     "host-call-result".into(),
                                     format!("`{text}` yields {} in the language but {} through create_call", show(&lang), show(&host)),
@@ -774,25 +778,6 @@ pub fn run_scenario(sc: &Scenario) -> RunReport {
         rep
     });
     r.unwrap_or_else(|p| RunReport { harness_error: Some(format!("run thread panicked: {p}")), ..Default::default() })
-}
-
-trait CloneResult {
-    fn clone_result(&self) -> Result<Variable, simplesl::ExecError>;
-}
-impl CloneResult for Result<Variable, simplesl::ExecError> {
-    fn clone_result(&self) -> Result<Variable, simplesl::ExecError> {
-        match self {
-            Ok(v) => Ok(v.clone()),
-            Err(e) => Err(match e {
-                simplesl::ExecError::IndexOutOfBounds => simplesl::ExecError::IndexOutOfBounds,
-                simplesl::ExecError::NegativeLength => simplesl::ExecError::NegativeLength,
-                simplesl::ExecError::NegativeExponent => simplesl::ExecError::NegativeExponent,
-                simplesl::ExecError::ZeroDivision => simplesl::ExecError::ZeroDivision,
-                simplesl::ExecError::ZeroModulo => simplesl::ExecError::ZeroModulo,
-                simplesl::ExecError::OverflowShift => simplesl::ExecError::OverflowShift,
-            }),
-        }
-    }
 }
 
 // ---------------------------------------------------------------------------------------------
